@@ -96,6 +96,21 @@ class C01Episode(Episode):
                       else 'terminate' if (r.props or {}).get('graceful')
                       is False else 'default')
 
+    def collect(self):
+        try:
+            if self.aborted == 'daemon_hung' and self.world is not None:
+                # the loop is dead (a blocking wait for a process that is
+                # alive): no periodic check will ever run again
+                h = self.world.sim.hung or {}
+                self.aborted = None
+                self.viol('daemon_stopped_converging',
+                          'the event loop is dead (%s waits for live pid %s): '
+                          'nothing converges any more'
+                          % (' <- '.join((h.get('stack') or [])[:3]),
+                             h.get('pid')), once='hung')
+        finally:
+            super().collect()
+
     def final(self):
         w = self.world
         k = w.kernel
